@@ -15,7 +15,7 @@
      bank-wide setup     bvm blfo blff bct, bd = digest of the loaded bank
      others              dev (SysEx device id), hn hd hls hle (player hook slots), ir idb ils ile
                          (sequencer-interface hook slots; 0 none, 1 the user's, 2 someone else's),
-                         loop ln ho tp sg solo td cd  (sequencer)
+                         loop ln ho tp sg solo td cd  (sequencer), fmt (the sequencer's file format, getFormat())
 
    Step(S, ev, fix) is the call; fix is a set of repair switches: {} = the code as it stands,
      "numchips"  opn2_setNumChips validates before it stores
@@ -46,18 +46,29 @@ BankHdr(b) == CASE b = 1 -> [vs |-> 0, lfo |-> 1, lff |-> 3, ct |-> 1]
                 [] b = 2 -> [vs |-> 0, lfo |-> 0, lff |-> 5, ct |-> 0]
                 [] OTHER -> [vs |-> 0, lfo |-> 1, lff |-> 7, ct |-> 0]
 BankDigest(b) == << <<32768, 20 + b>>, <<0, 10 + b>> >>
-\* trB = -1: no note B; marks: loopStart / loopEnd markers and the device-switch meta event; rsxx: EA-MUS file
-Song(s) == CASE s = 1 -> [nt |-> 2, trA |-> 0, trB |-> 1, marks |-> TRUE, rsxx |-> FALSE]
-             [] s = 3 -> [nt |-> 1, trA |-> 0, trB |-> -1, marks |-> FALSE, rsxx |-> TRUE]
-             [] OTHER -> [nt |-> 1, trA |-> 0, trB |-> 0, marks |-> TRUE, rsxx |-> FALSE]
+\* trB = -1: no note B; marks: loopStart / loopEnd markers and the device-switch meta event; rsxx: EA-MUS file;
+\* mm / fmt: the music mode of the synth and the file format of the sequencer that THIS file dictates, whatever was loaded
+\* (or refused) before.  Song kinds: 1, 2 Standard MIDI files; 3 EA-MUS (locks the set-up); 4 GMF and 5 DMX MUS (both are
+\* turned into SMF track data by the loader: plain MIDI mode, no lock); 6 AIL XMIDI (XMIDI mode, no lock; one sequence, the
+\* loader clamps the selected song number into the file); 7 id-Software IMF (an OPL register dump: the sniffing takes it, the
+\* loader parses it, LoadMIDI_post refuses it -- only ever opened as the refused file, bad = 5, like the CMF image).
+FmtMIDI == 0  FmtCMF == 1  FmtIMF == 2  FmtRSXX == 3  FmtXMIDI == 4      \* BW_MidiSequencer::FileFormat
 ModeRSXX == 4                     \* Synth::MODE_RSXX (MODE_MIDI = 0, MODE_XMIDI = 1, MODE_IMF = 2, MODE_CMF = 3)
+ModeXMIDI == 1
+Song(s) == CASE s = 1 -> [nt |-> 2, trA |-> 0, trB |-> 1, marks |-> TRUE, rsxx |-> FALSE, mm |-> 0, fmt |-> FmtMIDI]
+             [] s = 3 -> [nt |-> 1, trA |-> 0, trB |-> -1, marks |-> FALSE, rsxx |-> TRUE, mm |-> ModeRSXX, fmt |-> FmtRSXX]
+             [] s \in {4, 5} -> [nt |-> 1, trA |-> 0, trB |-> -1, marks |-> FALSE, rsxx |-> FALSE, mm |-> 0, fmt |-> FmtMIDI]
+             [] s = 6 -> [nt |-> 1, trA |-> 0, trB |-> -1, marks |-> FALSE, rsxx |-> FALSE, mm |-> ModeXMIDI, fmt |-> FmtXMIDI]
+             [] OTHER -> [nt |-> 1, trA |-> 0, trB |-> 0, marks |-> TRUE, rsxx |-> FALSE, mm |-> 0, fmt |-> FmtMIDI]
+\* a well-formed file of a format the player refuses (bad = 5): the Creative CMF image, or the IMF image when s = 7
+RefusedFmt(ev) == IF ev.s = 7 THEN FmtIMF ELSE FmtCMF
 Locked(S) == S.mm \in {2, 3, 4}   \* OPN2::setupLocked()
 
 S0 == [nc |-> 2, nco |-> 2, gvm |-> 1, al |-> -1, glfo |-> 0, glff |-> 0, gct |-> 0, arp |-> 0, emun |-> EmuName(0), nt |-> 0,
        emu |-> 0, pcm |-> 0, vm |-> 0, lfo |-> -1, lff |-> -1, ct |-> -1, smod |-> 0, frb |-> 0,
        vs |-> 0, smodS |-> 0, pcmS |-> 0, span |-> 0, mm |-> 0, bvm |-> 0, blfo |-> 0, blff |-> 0, bct |-> 0, bd |-> <<>>,
        dev |-> 0, hn |-> 0, hd |-> 0, hls |-> 0, hle |-> 0, ir |-> 0, idb |-> 0, ils |-> 0, ile |-> 0,
-       loop |-> 0, ln |-> -1, ho |-> 0, tp |-> 1000, sg |-> 0, solo |-> -1, td |-> <<>>, cd |-> 0]
+       loop |-> 0, ln |-> -1, ho |-> 0, tp |-> 1000, sg |-> 0, solo |-> -1, td |-> <<>>, cd |-> 0, fmt |-> 0]
 ModelF == DOMAIN S0
 
 \* derived getters; the channel mask is uninitialised memory until the first song is loaded
@@ -153,17 +164,22 @@ Step(S, ev, fix) ==
     [] ev.e = "OpenMidi" ->
          IF S.bd = <<>> THEN Rej(S)                                   \* LoadMIDI_pre: "Bank is not set!"
          ELSE IF CrashChips(S.nc) /\ S.emu # Dumper THEN Crash(S)
-         ELSE LET S1 == ApplySetup(S, fix) IN                         \* LoadMIDI_pre: ends the lock, applies the stored requests
-              IF ev.bad = 5       \* a well-formed CMF song: parsed (one track, per-song options reset), then refused by LoadMIDI_post (F40)
-              THEN Rej([S1 EXCEPT !.nt = 1, !.td = <<0>>, !.cd = 0, !.solo = -1])
+         ELSE LET S1 == ApplySetup(S, fix)                            \* LoadMIDI_pre: ends the lock, applies the stored requests
+                  \* a refused file (with the repair "rsxxlock" the lock of a loaded EA-MUS song survives it)
+                  SR == IF Locked(S) /\ "rsxxlock" \in fix
+                        THEN SynthReset([S1 EXCEPT !.mm = S.mm, !.vs = S.vs, !.nco = S.nco, !.pcmS = S.pcmS], S1.gct, FALSE, fix)
+                        ELSE S1 IN
+              \* BW_MidiSequencer::loadMIDI starts from Format_MIDI for EVERY file, then the parser of the sniffed container sets its own
+              IF ev.bad = 5       \* a well-formed CMF / IMF song: parsed (one track, per-song options reset), then refused by LoadMIDI_post (F40)
+              THEN Rej([SR EXCEPT !.nt = 1, !.td = <<0>>, !.cd = 0, !.solo = -1, !.fmt = RefusedFmt(ev)])
               ELSE IF ev.bad # 0                                      \* the parser rejects; the previous song stays
-              THEN (IF Locked(S) /\ "rsxxlock" \in fix
-                    THEN Rej(SynthReset([S1 EXCEPT !.mm = S.mm, !.vs = S.vs, !.nco = S.nco, !.pcmS = S.pcmS], S1.gct, FALSE, fix))
-                    ELSE Rej(S1))
+              THEN Rej([SR EXCEPT !.fmt = FmtMIDI])
               ELSE LET sg == Song(ev.s)
-                       \* LoadMIDI_post, Format_RSXX
-                       S2 == IF sg.rsxx THEN [S1 EXCEPT !.mm = ModeRSXX, !.vs = 0, !.nco = 2] ELSE S1
-                   IN Ok(SynthReset([S2 EXCEPT !.nt = sg.nt, !.td = [i \in 1..sg.nt |-> 0], !.cd = 0, !.solo = -1], S2.gct, FALSE, fix))
+                       \* LoadMIDI_post acts on the format of THIS file: Format_RSXX (lock, Generic, two chips), Format_XMIDI (mode only;
+                       \* parseXMI clamps the selected song number into the file: one sequence), everything else plain MIDI mode
+                       S2 == IF sg.rsxx THEN [S1 EXCEPT !.mm = ModeRSXX, !.vs = 0, !.nco = 2]
+                             ELSE IF sg.fmt = FmtXMIDI THEN [S1 EXCEPT !.mm = ModeXMIDI, !.sg = 0] ELSE S1
+                   IN Ok(SynthReset([S2 EXCEPT !.nt = sg.nt, !.td = [i \in 1..sg.nt |-> 0], !.cd = 0, !.solo = -1, !.fmt = sg.fmt], S2.gct, FALSE, fix))
     [] OTHER -> Ok(S)
 ModelStep(S, ev, fix) == LET x == Step(S, ev, fix) IN [s |-> Derive(x.s), r |-> x.r]
 
@@ -236,7 +252,7 @@ Target(ev) ==
     [] ev.e = "SetTempo" -> {"tp"}             [] ev.e = "SelectSong" -> {"sg"}
     [] ev.e = "TrackOpt" -> {"td", "solo"}     [] ev.e = "ChanEn" -> {"cd"}
     [] ev.e = "OpenBank" -> {"gvm", "glfo", "glff", "gct", "bd"}
-    [] ev.e = "OpenMidi" -> SongF
+    [] ev.e = "OpenMidi" -> IF Song(ev.s).fmt = FmtXMIDI THEN SongF \cup {"sg"} ELSE SongF
     [] OTHER -> {}
 \* the value the matching getter must report after an accepted call with a documented argument
 Exp(ev, pre, R) ==
@@ -305,11 +321,21 @@ ForceFails(post, R1) ==
 \* a valid file after a rejected one
 ReloadFails(ev, r, R) == IF ev.e = "OpenMidi" /\ ev.bad = 0 /\ R.hasBank /\ R.afterReject /\ r # 0 THEN {"reload-after-reject"} ELSE {}
 ReloadCounts(ev, R) == ev.e = "OpenMidi" /\ ev.bad = 0 /\ R.hasBank /\ R.afterReject
+\* every music load is judged on THAT file alone, whatever the instance was given before (accepted or refused): a valid file
+\* of a supported container is accepted once a bank is there, a damaged file / a file of a refused format is not; an accepted
+\* file leaves the music mode and the sequencer format its own container dictates (and with them the lock: see RefStep)
+LoadFails(ev, r, post, R) ==
+  IF ev.e # "OpenMidi" \/ ~R.hasBank THEN {}
+  ELSE (IF ev.bad = 0 /\ r # 0 /\ ~R.afterReject THEN {"load-refused"} ELSE {})
+       \cup (IF ev.bad # 0 /\ r = 0 THEN {"load-accepted"} ELSE {})
+       \cup (IF ev.bad = 0 /\ r = 0 /\ post.mm # Song(ev.s).mm THEN {"load-mode"} ELSE {})
+       \cup (IF ev.bad = 0 /\ r = 0 /\ post.fmt # Song(ev.s).fmt THEN {"load-format"} ELSE {})
 
 \* the twin received the same history without the calls that reported failure
 \* (a rejected call ended the set-up lock on A, the twin is still locked: the class reject-unlocked)
+\* ("song": the identity of the loaded song, an observation outside the model -- a refused file must not replace the song)
 TwinFails(a, b) ==
-  LET d == { f \in RejF \ DumperF(a) : a[f] # b[f] }
+  LET d == { f \in (RejF \cup (IF "song" \in DOMAIN a THEN {"song"} ELSE {})) \ DumperF(a) : a[f] # b[f] }
       unl == Locked(b) /\ ~Locked(a)
   IN Lab("twin:", IF unl THEN d \ LockF ELSE d) \cup (IF unl THEN {"reject-unlocked"} ELSE {})
 
